@@ -143,7 +143,7 @@ PROPERTIES = {
         "explanation": "R-COINDEX, R-PASSTHROUGH[sort], R-SORTED, R-TOKEN (sort is part of the layer names: sorted and unsorted results computed together are not mixed), R-BLOCKLABELS (per-block label lists follow the sort flag)",
     },
     "C18": {
-        "rules": [M.rule_blockonly, PR.rule_unpermute, rule_token, rule_dispatch, rule_qrange, MB.rule_outalias, rule_arity, M.rule_novalid],
+        "rules": [M.rule_blockonly, PR.rule_unpermute, rule_token, rule_dispatch, rule_qrange, MB.rule_outalias, rule_arity, M.rule_novalid, rule_blocklabels],
         "thorough": [selftest, seeded_regression],
         "technique": "registry check; CFG dominance of a refusal over graph construction; three-site agreement",
         "level_text": "Static, all-paths: order statistics declare no block/combine decomposition, a refusal dominates graph construction "
